@@ -1,6 +1,9 @@
 // compiled once per architecture: -DC14_ARCH=<xsimd arch type> -DC14_ARCHNAME="<name>" -DC14_FN=register_<x>
 #include "funcs.hpp"
 
+#include <complex>
+#include <cstring>
+
 #include <xsimd/xsimd.hpp>
 
 namespace c14
@@ -89,6 +92,76 @@ namespace c14
                                         B r = xsimd::pow(x, e);
                                         r.store_unaligned((T*)o);
                                     } });
+            // the rest of the public floating-point surface: straight-line code today, kept under the block clock so that it stays that way
+#define U(NAME)                                                                                        \
+    out.push_back(FnEntry { #NAME, tn<T>::name(), C14_ARCHNAME, 1, L, ES, false,                      \
+                            [](const void* a, const void*, void* o)                                    \
+                            {                                                                          \
+                                B x = B::load_unaligned((const T*)a);                                  \
+                                B r = xsimd::NAME(x);                                                  \
+                                r.store_unaligned((T*)o);                                              \
+                            } });
+#define PRED(NAME)                                                                                     \
+    out.push_back(FnEntry { #NAME, tn<T>::name(), C14_ARCHNAME, 1, L, ES, false,                      \
+                            [](const void* a, const void*, void* o)                                    \
+                            {                                                                          \
+                                B x = B::load_unaligned((const T*)a);                                  \
+                                uint64_t m = xsimd::NAME(x).mask();                                    \
+                                memcpy(o, &m, 8);                                                      \
+                            } });
+#define BIN(NAME)                                                                                      \
+    out.push_back(FnEntry { #NAME, tn<T>::name(), C14_ARCHNAME, 2, L, ES, false,                      \
+                            [](const void* a, const void* b, void* o)                                  \
+                            {                                                                          \
+                                B x = B::load_unaligned((const T*)a);                                  \
+                                B y = B::load_unaligned((const T*)b);                                  \
+                                B r = xsimd::NAME(x, y);                                               \
+                                r.store_unaligned((T*)o);                                              \
+                            } });
+#define TER(NAME)                                                                                      \
+    out.push_back(FnEntry { #NAME, tn<T>::name(), C14_ARCHNAME, 2, L, ES, false,                      \
+                            [](const void* a, const void* b, void* o)                                  \
+                            {                                                                          \
+                                B x = B::load_unaligned((const T*)a);                                  \
+                                B y = B::load_unaligned((const T*)b);                                  \
+                                B r = xsimd::NAME(x, y, x);                                            \
+                                r.store_unaligned((T*)o);                                              \
+                            } });
+#define RED(NAME)                                                                                      \
+    out.push_back(FnEntry { #NAME, tn<T>::name(), C14_ARCHNAME, 1, L, ES, false,                      \
+                            [](const void* a, const void*, void* o)                                    \
+                            {                                                                          \
+                                B x = B::load_unaligned((const T*)a);                                  \
+                                T r = xsimd::NAME(x);                                                  \
+                                memcpy(o, &r, sizeof r);                                               \
+                            } });
+            U(sign) U(signnz) U(bitofsign) U(neg)
+            PRED(isnan) PRED(isinf) PRED(isfinite) PRED(is_even) PRED(is_odd) PRED(is_flint)
+            BIN(add) BIN(sub) BIN(mul) BIN(div) BIN(min) BIN(max)
+            TER(fma) TER(fms) TER(fnma) TER(fnms)
+            RED(reduce_add) RED(reduce_max) RED(reduce_min)
+#undef U
+#undef PRED
+#undef BIN
+#undef TER
+#undef RED
+            out.push_back(FnEntry { "clip", tn<T>::name(), C14_ARCHNAME, 2, L, ES, false,
+                                    [](const void* a, const void* b, void* o)
+                                    {
+                                        B x = B::load_unaligned((const T*)a);
+                                        B y = B::load_unaligned((const T*)b);
+                                        B r = xsimd::clip(x, xsimd::min(x, y), xsimd::max(x, y));
+                                        r.store_unaligned((T*)o);
+                                    } });
+            out.push_back(FnEntry { "nearbyint_as_int", tn<T>::name(), C14_ARCHNAME, 1, L, ES, false,
+                                    [](const void* a, const void*, void* o)
+                                    {
+                                        B x = B::load_unaligned((const T*)a);
+                                        // keep the argument inside the integer range: the conversion of huge values is not defined for the scalar fallbacks
+                                        x = xsimd::clip(xsimd::select(xsimd::isnan(x), B(T(0)), x), B(T(-1e9)), B(T(1e9)));
+                                        I r = xsimd::nearbyint_as_int(x);
+                                        r.store_unaligned((IT*)o);
+                                    } });
             // complex functions reuse the real kernels on (|z|, arg z): lanes are interleaved (re, im) pairs
             using CB = xsimd::batch<std::complex<T>, A>;
 #define CU(NAME)                                                                                       \
@@ -109,6 +182,38 @@ namespace c14
                                         CB r = xsimd::pow(x, y);
                                         r.store_unaligned((std::complex<T>*)o);
                                     } });
+#define CR(NAME)                                                                                       \
+    out.push_back(FnEntry { "c" #NAME, tn<T>::name(), C14_ARCHNAME, 1, 2 * L, ES, false,              \
+                            [](const void* a, const void*, void* o)                                    \
+                            {                                                                          \
+                                CB x = CB::load_unaligned((const std::complex<T>*)a);                  \
+                                B r = xsimd::NAME(x);                                                  \
+                                r.store_unaligned((T*)o);                                              \
+                            } });
+            CR(arg) CR(norm)
+#undef CR
+            out.push_back(FnEntry { "cconj", tn<T>::name(), C14_ARCHNAME, 1, 2 * L, ES, false,
+                                    [](const void* a, const void*, void* o)
+                                    {
+                                        CB x = CB::load_unaligned((const std::complex<T>*)a);
+                                        CB r = xsimd::conj(x);
+                                        r.store_unaligned((std::complex<T>*)o);
+                                    } });
+            out.push_back(FnEntry { "cproj", tn<T>::name(), C14_ARCHNAME, 1, 2 * L, ES, false,
+                                    [](const void* a, const void*, void* o)
+                                    {
+                                        CB x = CB::load_unaligned((const std::complex<T>*)a);
+                                        CB r = xsimd::proj(x);
+                                        r.store_unaligned((std::complex<T>*)o);
+                                    } });
+            out.push_back(FnEntry { "polar", tn<T>::name(), C14_ARCHNAME, 2, L, ES, false,
+                                    [](const void* a, const void* b, void* o)
+                                    {
+                                        B x = B::load_unaligned((const T*)a);
+                                        B y = B::load_unaligned((const T*)b);
+                                        CB r = xsimd::polar(x, y);
+                                        r.store_unaligned((std::complex<T>*)o);
+                                    } });
             out.push_back(FnEntry { "cabs", tn<T>::name(), C14_ARCHNAME, 1, 2 * L, ES, false,
                                     [](const void* a, const void*, void* o)
                                     {
@@ -119,9 +224,121 @@ namespace c14
         }
     }
 
+    namespace
+    {
+        template <class T>
+        struct itn;
+#define C14_ITN(T, N)                          \
+    template <>                                \
+    struct itn<T>                              \
+    {                                          \
+        static const char* name() { return N; } \
+    };
+        C14_ITN(int8_t, "i8")
+        C14_ITN(uint8_t, "u8")
+        C14_ITN(int16_t, "i16")
+        C14_ITN(uint16_t, "u16")
+        C14_ITN(int32_t, "i32")
+        C14_ITN(uint32_t, "u32")
+        C14_ITN(int64_t, "i64")
+        C14_ITN(uint64_t, "u64")
+#undef C14_ITN
+
+        // integer batches: every public arithmetic/bitwise function; divisors are made non-zero (and not -1) inside the call,
+        // shift counts are reduced modulo the element width - the property is about termination, the preconditions stay respected
+        template <class T>
+        void add_int(std::vector<FnEntry>& out)
+        {
+            using A = C14_ARCH;
+            using B = xsimd::batch<T, A>;
+            const int L = (int)B::size;
+            const int ES = (int)sizeof(T);
+#define IU(NAME)                                                                                       \
+    out.push_back(FnEntry { #NAME, itn<T>::name(), C14_ARCHNAME, 1, L, ES, false,                     \
+                            [](const void* a, const void*, void* o)                                    \
+                            {                                                                          \
+                                B x = B::load_unaligned((const T*)a);                                  \
+                                B r = xsimd::NAME(x);                                                  \
+                                r.store_unaligned((T*)o);                                              \
+                            } });
+#define IB(NAME)                                                                                       \
+    out.push_back(FnEntry { #NAME, itn<T>::name(), C14_ARCHNAME, 2, L, ES, false,                     \
+                            [](const void* a, const void* b, void* o)                                  \
+                            {                                                                          \
+                                B x = B::load_unaligned((const T*)a);                                  \
+                                B y = B::load_unaligned((const T*)b);                                  \
+                                B r = xsimd::NAME(x, y);                                               \
+                                r.store_unaligned((T*)o);                                              \
+                            } });
+#define IDIV(NAME)                                                                                     \
+    out.push_back(FnEntry { #NAME, itn<T>::name(), C14_ARCHNAME, 2, L, ES, false,                     \
+                            [](const void* a, const void* b, void* o)                                  \
+                            {                                                                          \
+                                B x = B::load_unaligned((const T*)a);                                  \
+                                B y = B::load_unaligned((const T*)b);                                  \
+                                y = xsimd::select(y == B(T(0)), B(T(1)), y);                           \
+                                y = xsimd::select(y == B(T(-1)), B(T(3)), y);                          \
+                                B r = xsimd::NAME(x, y);                                               \
+                                r.store_unaligned((T*)o);                                              \
+                            } });
+#define ISH(NAME)                                                                                      \
+    out.push_back(FnEntry { #NAME, itn<T>::name(), C14_ARCHNAME, 2, L, ES, false,                     \
+                            [](const void* a, const void* b, void* o)                                  \
+                            {                                                                          \
+                                B x = B::load_unaligned((const T*)a);                                  \
+                                B y = B::load_unaligned((const T*)b) & B(T(8 * sizeof(T) - 1));        \
+                                B r = xsimd::NAME(x, y);                                               \
+                                r.store_unaligned((T*)o);                                              \
+                            } });                                                                      \
+    out.push_back(FnEntry { #NAME "(int)", itn<T>::name(), C14_ARCHNAME, 2, L, ES, false,             \
+                            [](const void* a, const void* b, void* o)                                  \
+                            {                                                                          \
+                                B x = B::load_unaligned((const T*)a);                                  \
+                                int n = (int)(*(const unsigned char*)b % (8 * sizeof(T)));             \
+                                B r = xsimd::NAME(x, n);                                               \
+                                r.store_unaligned((T*)o);                                              \
+                            } });
+#define IRED(NAME)                                                                                     \
+    out.push_back(FnEntry { #NAME, itn<T>::name(), C14_ARCHNAME, 1, L, ES, false,                     \
+                            [](const void* a, const void*, void* o)                                    \
+                            {                                                                          \
+                                B x = B::load_unaligned((const T*)a);                                  \
+                                T r = xsimd::NAME(x);                                                  \
+                                memcpy(o, &r, sizeof r);                                               \
+                            } });
+            IU(abs) IU(neg) IU(bitwise_not) IU(sign)
+            IB(add) IB(sub) IB(mul) IB(min) IB(max) IB(sadd) IB(ssub) IB(avg) IB(avgr) IB(bitwise_and) IB(bitwise_or) IB(bitwise_xor) IB(bitwise_andnot)
+            IDIV(div) IDIV(mod)
+            ISH(bitwise_lshift) ISH(bitwise_rshift) ISH(rotl) ISH(rotr)
+            IRED(reduce_add) IRED(reduce_max) IRED(reduce_min)
+#undef IU
+#undef IB
+#undef IDIV
+#undef ISH
+#undef IRED
+            out.push_back(FnEntry { "ipow", itn<T>::name(), C14_ARCHNAME, 2, L, ES, false,
+                                    [](const void* a, const void* b, void* o)
+                                    {
+                                        B x = B::load_unaligned((const T*)a);
+                                        uint32_t e;
+                                        memcpy(&e, b, 4);
+                                        B r = xsimd::pow(x, (int)(e & 0x7fffffffu)); // a negative exponent would divide by the (possibly zero) power
+                                        r.store_unaligned((T*)o);
+                                    } });
+        }
+    }
+
     void C14_FN(std::vector<FnEntry>& out)
     {
         add_all<float>(out);
         add_all<double>(out);
+        add_int<int8_t>(out);
+        add_int<uint8_t>(out);
+        add_int<int16_t>(out);
+        add_int<uint16_t>(out);
+        add_int<int32_t>(out);
+        add_int<uint32_t>(out);
+        add_int<int64_t>(out);
+        add_int<uint64_t>(out);
     }
 }
